@@ -4,6 +4,7 @@ import NutsModel.C20.Outbound
 import NutsModel.C20.Sources
 import NutsModel.C20.Engines
 import NutsModel.C20.FlagsSql
+import NutsModel.C20.Dummy
 import NutsModel.Facts.C20
 open Lean Nuts.Drv Nuts.C18 Nuts.C20 Nuts
 
@@ -166,6 +167,15 @@ def step (st : Unit) (j : Json) : Unit × List String :=
         let cfg := { configOf j with sqlExplicit := conn.length ≠ 0 }
         showOutcome "sys" (jBool j "iammatrix") cfg (startConn Nuts.Facts.C20.sqlAdapters tlds l2s (configOf j) conn dflt)
       else showOutcome "sys" (jBool j "iammatrix") (configOf j) (start tlds l2s (configOf j))
+    | "dummy" =>
+      -- the dummy means as a state machine; guards read off the regenerated fact
+      let g : DummyGuards :=
+        { verify := Nuts.Facts.C20.strictCondsDummy.contains "VerifyVP: d.InStrictMode",
+          status := Nuts.Facts.C20.strictCondsDummy.contains "SigningSessionStatus: d.InStrictMode",
+          start := Nuts.Facts.C20.strictCondsDummy.contains "StartSigningSession: d.InStrictMode" }
+      let acts : List DummyAct := (jStrs j "acts").map fun a =>
+        if a == "start" then .start else if a == "verify" then .verify else .status ((a.drop 7).toString.toNat!)
+      "dummy " ++ String.intercalate "," (dummyRun g { strict := jBool j "strict" } acts).2
     | "cflag" =>
       -- loadFromFlagSet / NewClientConfigForCommand over the CLI client's flag set plus a command's own flags
       -- (`names` = all flags in VisitAll order, `args` = the ones set on the command line); suffixes REGENERATED
